@@ -366,6 +366,7 @@ func main() {
 	addDir("internal/vhook", filepath.Join(*inject, "vhook"))
 	addDir("internal/vexec", filepath.Join(*inject, "vexec"))
 	addDir("internal/refawk", filepath.Join(*inject, "refawk"))
+	addDir("internal/bcverify", filepath.Join(*inject, "bcverify"))
 	addDir("vexp", filepath.Join(*inject, "vexp"))
 	addDir("interp", filepath.Join(*inject, "interp"))
 
